@@ -532,7 +532,7 @@ func variants14(c *Chooser, s Session, base *sessRun) []Variant {
 			runStart = -1
 		}
 		for j, st := range res.Steps {
-			thin := st.Kind == simos.SWrite || st.Kind == simos.SStdinRead
+			thin := st.Kind == simos.SWrite || st.Kind == simos.SStdinRead || st.Kind == simos.SFileRead
 			if thin {
 				if runStart >= 0 && res.Steps[runStart].Kind == st.Kind {
 					continue
@@ -554,6 +554,19 @@ func variants14(c *Chooser, s Session, base *sessRun) []Variant {
 			}
 		}
 		flush(len(res.Steps))
+	}
+	if len(vs) > 300 {
+		// a session with very many distinct steps: keep the clause variants and
+		// a seeded sample of the fault variants (the cap is part of the run,
+		// so a seed explores the same cases on any machine)
+		keep := vs[:3]
+		rest := vs[3:]
+		for len(keep) < 300 && len(rest) > 0 {
+			i := c.Int(len(rest))
+			keep = append(keep, rest[i])
+			rest = append(rest[:i:i], rest[i+1:]...)
+		}
+		vs = keep
 	}
 	return vs
 }
